@@ -1363,6 +1363,59 @@ class Interp:
             pass
         self.generic_loop(None, None, s, fr, dom=dom)
 
+    @staticmethod
+    def first_use_may_precede_binding(name, stmts):
+        """definite-assignment walk over ONE iteration: can `name` be read on some path before it has been assigned on that
+        path?  (branches that leave the iteration by continue / break / return do not flow on)"""
+        class Hit(Exception):
+            pass
+
+        def reads(node):
+            return any(isinstance(x, ast.Name) and x.id == name and isinstance(x.ctx, ast.Load) for x in ast.walk(node))
+
+        def block(sts, assigned):
+            """-> assigned after the block, or None when the block does not fall through"""
+            for st in sts:
+                if isinstance(st, ast.If):
+                    if not assigned and reads(st.test):
+                        raise Hit()
+                    a = block(st.body, assigned)
+                    b = block(st.orelse, assigned)
+                    if a is None and b is None:
+                        return None
+                    assigned = (a if b is None else b if a is None else (a and b))
+                elif isinstance(st, (ast.For, ast.While)):
+                    hdr = st.iter if isinstance(st, ast.For) else st.test
+                    if not assigned and reads(hdr):
+                        raise Hit()
+                    block(st.body, assigned)          # may run zero times: contributes no definite assignment
+                elif isinstance(st, (ast.Continue, ast.Break, ast.Return, ast.Raise)):
+                    if not assigned and reads(st):
+                        raise Hit()
+                    return None
+                elif isinstance(st, (ast.With, ast.Try)):
+                    inner = st.body
+                    r = block(inner, assigned)
+                    if r is None:
+                        return None
+                    assigned = r
+                elif isinstance(st, ast.Assign):
+                    if not assigned and reads(st.value):
+                        raise Hit()
+                    if any(isinstance(x, ast.Name) and x.id == name and isinstance(x.ctx, ast.Store) for t in st.targets for x in ast.walk(t)):
+                        assigned = True
+                    elif not assigned and any(reads(t) for t in st.targets):
+                        raise Hit()
+                else:
+                    if not assigned and reads(st):
+                        raise Hit()
+            return assigned
+        try:
+            block(stmts, False)
+        except Hit:
+            return True
+        return False
+
     def only_mutated_in_place(self, name, stmts):
         for st in stmts:
             for n in ast.walk(st):
@@ -1392,6 +1445,16 @@ class Interp:
         `dom` binding s.target and running s.body."""
         self.havoc_heap(s.body)
         lid = next(self.ids)
+        # a name first bound in one iteration and read in a later one (e.g. section ends computed on the header line) is
+        # loop-carried too; before its first binding it is unbound
+        targets = {x.id for n_ in ast.walk(s) if isinstance(n_, (ast.For, ast.comprehension)) for x in ast.walk(n_.target) if isinstance(x, ast.Name)}
+        plain_stores = {x.id for st in s.body for n_ in ast.walk(st) if isinstance(n_, ast.Assign) for t_ in n_.targets for x in ast.walk(t_)
+                        if isinstance(x, ast.Name) and isinstance(x.ctx, ast.Store)}
+        loads = {x.id for st in s.body for x in ast.walk(st) if isinstance(x, ast.Name) and isinstance(x.ctx, ast.Load)}
+        for k in sorted((plain_stores & loads) - targets):
+            if k not in fr.env and self.first_use_may_precede_binding(k, s.body):
+                fr.env[k] = TOP('unbound ' + k)
+                fr.defdepth[k] = fr.loopdepth
         pre = dict(fr.env)
         mods = self.modified_names(s.body)
         carried = [k for k in mods if k in pre and fr.defdepth.get(k, 0) <= fr.loopdepth
